@@ -187,8 +187,14 @@ def zr(x):
 
 
 def zreal(x):
+    if isinstance(x, bool):
+        return z3.RealVal(int(x))
+    if isinstance(x, int):
+        return z3.RealVal(x)
     x = zr(x)
     if z3.is_int(x):
+        if z3.is_int_value(x):
+            return z3.RealVal(x.as_long())  # a numeral, not (to_real 100): keeps products linear for the solver
         return z3.ToReal(x)
     return x
 
@@ -309,6 +315,31 @@ _fresh_counter = [0]
 def fresh_name(prefix):
     _fresh_counter[0] += 1
     return "%s!%d" % (prefix, _fresh_counter[0])
+
+
+def bvar(prefix, zsort=None):
+    """a constant that will be bound by a quantifier / lambda (never purified, never part of a model)"""
+    return z3.Const(fresh_name("bv!" + prefix), zsort if zsort is not None else z3.IntSort())
+
+
+def has_bvar(t, budget=400):
+    todo = [t]
+    seen = set()
+    n = 0
+    while todo:
+        x = todo.pop()
+        if x.get_id() in seen:
+            continue
+        seen.add(x.get_id())
+        n += 1
+        if n > budget:
+            return True
+        if z3.is_var(x) or z3.is_quantifier(x):
+            return True
+        if z3.is_const(x) and x.decl().kind() == z3.Z3_OP_UNINTERPRETED and x.decl().name().startswith("bv!"):
+            return True
+        todo.extend(x.children())
+    return False
 
 
 def fresh_terms(sort, prefix):
